@@ -259,10 +259,22 @@ func (p *Pattern) Conforms(path string, params map[string]string) bool {
 	if len(params) != len(p.Capturing()) {
 		return false
 	}
-	return p.conf(0, path, params)
+	return p.conf(0, path, params, map[[2]int]bool{})
 }
 
-func (p *Pattern) conf(i int, rest string, params map[string]string) bool {
+func (p *Pattern) conf(i int, rest string, params map[string]string, dead map[[2]int]bool) bool {
+	start := [2]int{i, len(rest)}
+	if dead[start] {
+		return false
+	}
+	ok := p.conf1(i, rest, params, dead)
+	if !ok {
+		dead[start] = true
+	}
+	return ok
+}
+
+func (p *Pattern) conf1(i int, rest string, params map[string]string, dead map[[2]int]bool) bool {
 	for ; i < len(p.Atoms); i++ {
 		a := p.Atoms[i]
 		if a.P == nil {
@@ -274,7 +286,7 @@ func (p *Pattern) conf(i int, rest string, params map[string]string) bool {
 		}
 		if a.P.Ignore {
 			for l := 0; l <= len(rest); l++ {
-				if a.P.Accepts(rest[:l]) && p.conf(i+1, rest[l:], params) {
+				if a.P.Accepts(rest[:l]) && p.conf(i+1, rest[l:], params, dead) {
 					return true
 				}
 			}
@@ -290,9 +302,23 @@ func (p *Pattern) conf(i int, rest string, params map[string]string) bool {
 }
 
 // Matches reports whether some assignment of values makes the pattern equal to path.
-func (p *Pattern) Matches(path string) bool { return p.matches(0, path) }
+func (p *Pattern) Matches(path string) bool { return p.matches(0, path, map[[2]int]bool{}) }
 
-func (p *Pattern) matches(i int, rest string) bool {
+// dead memoises the (atom index, remaining length) pairs from which no assignment exists: rest is always a suffix of
+// the path, so its length identifies it, and the search stays polynomial for routes with dozens of parameters.
+func (p *Pattern) matches(i int, rest string, dead map[[2]int]bool) bool {
+	start := [2]int{i, len(rest)}
+	if dead[start] {
+		return false
+	}
+	ok := p.matches1(i, rest, dead)
+	if !ok {
+		dead[start] = true
+	}
+	return ok
+}
+
+func (p *Pattern) matches1(i int, rest string, dead map[[2]int]bool) bool {
 	for ; i < len(p.Atoms); i++ {
 		a := p.Atoms[i]
 		if a.P == nil {
@@ -303,7 +329,7 @@ func (p *Pattern) matches(i int, rest string) bool {
 			continue
 		}
 		for l := 0; l <= len(rest); l++ {
-			if a.P.Accepts(rest[:l]) && p.matches(i+1, rest[l:]) {
+			if a.P.Accepts(rest[:l]) && p.matches(i+1, rest[l:], dead) {
 				return true
 			}
 		}
